@@ -84,6 +84,9 @@ def specCmp (l r : List Nat) : Ordering :=
   | .eq => compare l.length r.length
   | o => o
 
+/-! The model column of the slice kernels `adc_n`, `sbb_n`, `add_nx1`, `mul_nx1`, `addmul_nx1`, `submul_nx1`,
+`shift_left_small`, `shift_right_small` is the function GENERATED from the Rust source (`Ruint/Gen/WordsKernels.lean`) on
+its domain (`Props/C15: gen_*_eq` prove it equal to the hand model there), the hand model elsewhere. -/
 def handle (args : List String) (_impl : String) : String × String :=
   match args with
   | ["selfcheck", bs, ns] => (selfCheck (parseDec bs) (parseDec ns), "ok")
@@ -100,10 +103,10 @@ def handle (args : List String) (_impl : String) : String × String :=
          if n = a.length ∧ n = b.length then limbsStr (specAddmul W lhs a b).1 else "panic")
     | "addmulnx1" =>
         let a := parseLimbs x2; let b := parseHex x3
-        (outLC (addmulNx1 W lhs a b), outLC (specCarry W n (val lhs + val a * b)))
+        (outLC (if n = a.length then Ruint.Gen.addmul_nx1 (a.length + 1) lhs a b else addmulNx1 W lhs a b), outLC (specCarry W n (val lhs + val a * b)))
     | "submulnx1" =>
         let a := parseLimbs x2; let b := parseHex x3
-        (outLC (submulNx1 W lhs a b), outLC (specBorrow W n (val lhs) (val a * b)))
+        (outLC (if n = a.length then Ruint.Gen.submul_nx1 (a.length + 1) lhs a b else submulNx1 W lhs a b), outLC (specBorrow W n (val lhs) (val a * b)))
     | "adcn" =>
         let r := parseLimbs x2; let c := parseHex x3
         -- model column: the function GENERATED from src/algorithms/add.rs on its domain (Props/C15: gen_adc_n_eq)
@@ -138,13 +141,13 @@ def handle (args : List String) (_impl : String) : String × String :=
     let n := lhs.length
     match op with
     | "mulnx1" => let a := parseHex x2
-        (outLC (mulNx1 W lhs a), outLC (specCarry W n (val lhs * a)))
+        (outLC (Ruint.Gen.mul_nx1 (n + 1) lhs a), outLC (specCarry W n (val lhs * a)))
     | "addnx1" => let a := parseHex x2
-        (outLC (addNx1 W lhs a), outLC (specCarry W n (val lhs + a)))
+        (outLC (Ruint.Gen.add_nx1 (n + 1) lhs a), outLC (specCarry W n (val lhs + a)))
     | "shl" => let k := parseDec x2
-        (outLC (shlSmall lhs k), outLC (specCarry W n (val lhs * 2 ^ k)))
+        (outLC (if k ≤ 64 then Ruint.Gen.shift_left_small (n + 1) lhs k else shlSmall lhs k), outLC (specCarry W n (val lhs * 2 ^ k)))
     | "shr" => let k := parseDec x2
-        (outLC (shrSmall lhs k),
+        (outLC (if k ≤ 64 then Ruint.Gen.shift_right_small (n + 1) lhs k else shrSmall lhs k),
          outLC (toLimbs n (val lhs / 2 ^ k), (val lhs % 2 ^ k) * 2 ^ (64 - k)))
     | "cmp" => let r := parseLimbs x2
         (ordStr (cmp lhs r), ordStr (specCmp lhs r))
